@@ -115,6 +115,8 @@ def term_symbols(term, acc=None):
         term_symbols(term[2], acc)
     elif k in ("constT", "const0"):
         pass
+    elif k == "named":
+        term_symbols(term[2], acc)
     else:
         for t in term[1:]:
             term_symbols(t, acc)
@@ -132,6 +134,8 @@ def build(ctx, term, syms):
         return ctx.constant(CONST_VALUES[term[1]], tystr(term[2]))
     if k == "const0":
         return ctx.constant(CONST0_VALUES[term[1]])
+    if k == "named":      # a user-named sub-expression (Expr.reference with an explicit name; alt family only)
+        return build(ctx, term[2], syms).reference(ref_name=term[1], force=True)
     ops = [build(ctx, t, syms) for t in term[1:]]
     return getattr(ctx, k)(*ops)
 
@@ -214,7 +218,26 @@ def make_program(fa, graph, trusted, label, with_nat0=True):
             for e in order:
                 if e.kind != "symbol":
                     e.reference(force=True)
+            # values of constants that are expressions of the alternative context (enable_alt): they are bound to
+            # variables of their own by the constant printer; those variables are not nodes of this graph
+            altvals, seen_alt = [], set()
+
+            def alt_rec(a):
+                if id(a) in seen_alt or not hasattr(a, "kind"):
+                    return
+                seen_alt.add(id(a))
+                altvals.append(a)
+                if a.kind not in ("constant", "symbol"):
+                    for o in a.operands:
+                        alt_rec(o)
+
+            for e in order:
+                if e.kind == "constant" and hasattr(e.operands[0], "kind"):
+                    alt_rec(e.operands[0])
+            for a in altvals:
+                a.reference(force=True)
             prog.texts["forced1"] = graph.tostring(targets.numpy, debug=1)
+            prog.alt_names = {a.ref for a in altvals if isinstance(a.ref, str)}
             prog.name2node = {}
             for i, e in enumerate(order):
                 r = e.ref
@@ -226,7 +249,31 @@ def make_program(fa, graph, trusted, label, with_nat0=True):
     return prog
 
 
-def program_from_term(fa, term, use_rewriter, with_nat0=True):
+ALT_KWARGS = dict(enable_alt=True, default_constant_type="float64")
+
+
+def alt_terms():
+    """enable_alt family: one value as two constants with different likes (symbols of one type, or of two types) used
+    under two operations whose results are combined.  In a context with an alternative context both constants
+    share one expression of the alternative context as their value."""
+    out = []
+    fl = [["float", 16], ["float", 32], ["float", 64]]
+    for t1 in fl:
+        for t2 in fl:
+            for v in ("3", "1.5", "0.25", "2", "pi", "largest"):
+                for k1, k2 in (("add", "multiply"), ("subtract", "add"), ("multiply", "subtract"), ("maximum", "multiply")):
+                    if t1 != t2 and (k1, k2) != ("add", "multiply"):
+                        continue
+                    x, y = ["sym", "x", t1], ["sym", "y", t2]
+                    out.append([k1, [k2, x, ["const", v, x]], [k2, y, ["const", v, y]]])
+                    out.append([k1, [k2, ["const", v, y], y], [k2, ["const", v, x], x]])
+                    # the two constants named by the user (as the tracer names assigned locals): two variables
+                    out.append([k1, [k2, x, ["named", "c_x", ["const", v, x]]], [k2, y, ["named", "c_y", ["const", v, y]]]])
+                    out.append([k1, [k2, ["named", "c_y", ["const", v, y]], y], [k2, ["named", "c_x", ["const", v, x]], x]])
+    return out
+
+
+def program_from_term(fa, term, use_rewriter, with_nat0=True, alt=False):
     from functional_algorithms import targets
     syms = term_symbols(term)
     names = sorted(syms)
@@ -234,7 +281,7 @@ def program_from_term(fa, term, use_rewriter, with_nat0=True):
         "".join(", " + n for n in names), ", ".join("%s=%s" % (n, n) for n in names))
     env = dict(_build=build, _term=term)
     exec(src, env)
-    ctx = fa.Context(paths=[fa.algorithms])
+    ctx = fa.Context(paths=[fa.algorithms], **(ALT_KWARGS if alt else {}))
     sink = io.StringIO()
     try:
         with warnings.catch_warnings(), contextlib.redirect_stdout(sink):
@@ -469,6 +516,9 @@ def observe(prog, pidx, nvec, counters, with_nat0=True):
                     # two constants of one value with different likes share one reference name (the printer binds
                     # the first and reuses it for the second): the variable is the value of each of them
                     cands = prog.name2node.get(name, [])
+                    if not cands and name in prog.alt_names:
+                        counters["alt_context_variables"] = counters.get("alt_context_variables", 0) + 1
+                        continue
                     if not cands:
                         counters["unmapped_variables"] = counters.get("unmapped_variables", 0) + 1
                         continue
@@ -533,7 +583,7 @@ def _work(job):
             if source == "shipped":
                 prog = program_from_shipped(fa, payload[0], payload[1])
             else:
-                prog = program_from_term(fa, payload[0], payload[2], nat0)
+                prog = program_from_term(fa, payload[0], payload[2], nat0, alt=(source == "alt"))
             ev = observe(prog, pidx, nvec, counters, nat0)
             seen_sig = set()
             byvec = {}
@@ -554,7 +604,7 @@ def _work(job):
                     rows.append((pidx, v, e["m"], e["n"], e["var"], jkidx[k]))
             ops_tables[pidx] = {i: nd["ops"] for i, nd in enumerate(prog.nodes) if nd["ops"]}
             drift = None
-            if source != "shipped" and prog.static_body is not None and prog.static_body != payload[1]:
+            if source not in ("shipped", "alt") and prog.static_body is not None and prog.static_body != payload[1]:
                 drift = (payload[1], prog.static_body)
             info.append(dict(p=pidx, ok=True, nodes=len(prog.nodes), drift=drift))
         except Skip as s:
@@ -777,6 +827,10 @@ def collect_items(chk, tier, seed):
     items += [("ops2", (t, st, False)) for t, st in ops2]
     rnd = gen_terms("random", chk, nrandom=1500 if quick else 40000, maxdepth=4 if quick else 5, seed=seed + 11)
     items += [("random", (t, st, i % 3 == 0)) for i, (t, st) in enumerate(rnd)]
+    # contexts with an alternative context: the hand-written two-likes family and a share of the TLC terms with constants
+    items += [("alt", (t, None, False)) for t in alt_terms()]
+    withc = [(t, st) for t, st in ops1 + ops2 if '"const"' in json.dumps(t)]
+    items += [("alt", (t, st, False)) for t, st in rng.sample(withc, min(len(withc), 400 if quick else 5000))]
     return items
 
 
@@ -847,7 +901,7 @@ def run(tier, seed):
     okprogs = [i for i in obs.info if i["ok"]]
     chk.cov["programs"] = len(items)
     chk.cov["programs_executed"] = len(okprogs)
-    chk.cov["programs_by_source"] = {s: sum(1 for x in items if x[0] == s) for s in ("shipped", "ops1", "ops2", "random")}
+    chk.cov["programs_by_source"] = {s: sum(1 for x in items if x[0] == s) for s in ("shipped", "ops1", "ops2", "random", "alt")}
     if len(okprogs) < 0.5 * len(items):
         raise tlc.MachineryError("more than half of the programs could not be built/printed: %s" % obs.counters.get("skip_examples"))
     if obs.counters.get("unmapped_variables", 0) > 0.01 * max(1, len(obs.rows)):
